@@ -8,9 +8,9 @@ SEEDS = {
     'C03-surrogate-pair2-state': ('C03', 'json_string'), 'C04-grisu-boundary': ('C04', 'grisu'), 'C05-cbor-stringref-bound': ('C05', 'cbor_item'),
     'C06-strref-threshold': ('C06', 'cbor_strref'), 'C06-bytestring-strref-index': ('C06', 'cbor_strref'), 'C07-msgpack-fixmap15': ('C07', 'msgpack_read'),
     'C08-cbor-bignum-head': ('C08', 'cbor_head'), 'C08-ubjson-length-int16': ('C08', 'ubjson'), 'C09-ojson-bloom': ('C09', 'ojson_bloom,cmp'),
-    'C10-flatten-destroy': ('C10', None), 'C12-slice-neg-step': ('C12', 'slices'), 'C13-slice-neg-start': ('C13', 'slices'), 'C14-leading-zeros-00': ('C14', 'jsonpointer'),
+    'C10-flatten-destroy': ('C10', 'json_flatten'), 'C12-slice-neg-step': ('C12', 'slices'), 'C13-slice-neg-start': ('C13', 'slices'), 'C14-leading-zeros-00': ('C14', 'jsonpointer'),
     'C18-toon-tabular-backslash': ('C18', 'toon,csv_quote'),
-    'C12-jsonpath-parser-slice-reset': ('C12', 'slices'), 'C18-csv-minimal-quote-linebreak': ('C18', 'csv_quote'),
+    'C12-jsonpath-parser-slice-reset': ('C12', 'jsonpath_slice_parse'), 'C01-grisu-pow2-lower-boundary': ('C01', 'grisu'), 'C18-csv-minimal-quote-linebreak': ('C18', 'csv_quote'),
     'C03-fals-cursor-mode': ('C03', 'json_literals'), 'C04-grisu-boundary-shift': ('C04', 'grisu'), 'C10-source-reader-claimed-length': ('C10', 'source_reader'),
 }
 only = sys.argv[1:]
